@@ -17,9 +17,20 @@
 //	                                                      registration is held for <hold> ms at phase p (server plugin),
 //	                                                      c / r / a (gates reg.checked / reg.ran / reg.added)
 //	                                                   x<ms>  cut the connection after ms (last item)
-//	                                                 then silence.  After the session ended (and the held registration
+//	                                                   u<ms>/<k>  k user connections to the remote port of the proxy
+//	                                                      registered last: the scripted client answers every ReqWorkConn
+//	                                                      with a work connection and echoes on it (LIVE traffic: the
+//	                                                      connections stay bridged when the peer falls silent / is cut;
+//	                                                      the silent peer keeps every socket open)
+//	                                                   C<ms>  CloseProxy of the proxy registered last (its users stay connected)
+//	                                                 then silence.  An optional 6th token `mux` runs the scenario with tcpMux on
+//	                                                 (scripted yamux client, work connections = streams).  After the session ended (and the held registration
 //	                                                 returned) + 600 ms a fresh session registers the same names/ports.
 //	wdwait ID                                        => closed|cut C sent=v:t,i:t,c:t,.. pok=N perr=M px=j:resp:rereg,.. | open H …
+//	                                                 with u items two more fields: lv=K/B/O (user connections opened / bridged =
+//	                                                 echo seen / still open when the tables were read) tb=C/N (600 ms after the
+//	                                                 close: the session's run id is still in the control manager 0|1 / how many
+//	                                                 of its proxy names are still in the proxy manager; Service.VerifSessDump)
 //	                                                 (sent: every message written, kind:µs; n = a NewProxy, stamped when its
 //	                                                 hold ends)
 //	cwstart ID I T SET SCRIPT                        real frpc (client.NewService with proxy set SET, heartbeatInterval=I,
@@ -88,10 +99,15 @@ type waitEngine struct {
 	last  time.Duration
 	mu    sync.Mutex
 	jobs  map[string]chan string
-	srvs  map[string]int // "T/scope" -> port of a running frps
+	srvs  map[string]*wdServer // "T/scope/mux" -> a running frps
 }
 
-var weng = &waitEngine{jobs: map[string]chan string{}, srvs: map[string]int{}}
+type wdServer struct {
+	port int
+	svc  *server.Service
+}
+
+var weng = &waitEngine{jobs: map[string]chan string{}, srvs: map[string]*wdServer{}}
 
 func parseOpts(tok []string) wait.FastBackoffOptions {
 	v := make([]int64, 12)
@@ -301,11 +317,11 @@ func wdPort() int {
 	panic("no free port")
 }
 
-func (w *waitEngine) serverFor(T int, scope bool) int {
+func (w *waitEngine) serverFor(T int, scope, mux bool) *wdServer {
 	plug := wdPlugin()
 	w.mu.Lock()
 	defer w.mu.Unlock()
-	key := fmt.Sprintf("%d/%v", T, scope)
+	key := fmt.Sprintf("%d/%v/%v", T, scope, mux)
 	if p, ok := w.srvs[key]; ok {
 		return p
 	}
@@ -319,7 +335,7 @@ func (w *waitEngine) serverFor(T int, scope bool) int {
 		if scope {
 			cfg.Auth.AdditionalScopes = []v1.AuthScope{v1.AuthScopeHeartBeats}
 		}
-		f := false
+		f := mux
 		cfg.Transport.TCPMux = &f
 		cfg.Transport.HeartbeatTimeout = int64(T)
 		cfg.HTTPPlugins = []v1.HTTPPluginOptions{{Name: "verif-c14", Addr: plug, Path: "/h", Ops: []string{"NewProxy", "Ping"}}}
@@ -330,8 +346,8 @@ func (w *waitEngine) serverFor(T int, scope bool) int {
 			continue
 		}
 		go svr.Run(context.Background())
-		w.srvs[key] = cfg.BindPort
-		return cfg.BindPort
+		w.srvs[key] = &wdServer{cfg.BindPort, svr}
+		return w.srvs[key]
 	}
 	panic(lastErr)
 }
@@ -341,7 +357,7 @@ type wdItem struct {
 	// 'e' NewProxy (unsupported type), 'h' NatHoleReport (unknown session), 'x' cut
 	ms    int
 	phase byte // n: 'p' plugin, 'c' reg.checked, 'r' reg.ran, 'a' reg.added
-	hold  int  // n: ms the registration is held at `phase`
+	hold  int  // n: ms the registration is held at `phase`; u: number of user connections
 }
 
 func parseWdScript(s string) []wdItem {
@@ -354,6 +370,9 @@ func parseWdScript(s string) []wdItem {
 		if p[0] == 'n' {
 			f := strings.Split(p[1:], "/")
 			it.ms, it.phase, it.hold = atoi(f[0]), f[1][0], atoi(f[2])
+		} else if p[0] == 'u' {
+			f := strings.Split(p[1:], "/")
+			it.ms, it.hold = atoi(f[0]), atoi(f[1])
 		} else {
 			it.ms = atoi(p[1:])
 		}
@@ -364,50 +383,20 @@ func parseWdScript(s string) []wdItem {
 
 var wdPoints = map[byte]string{'p': "plug", 'c': "reg.checked", 'r': "reg.ran", 'a': "reg.added"}
 
-// wdLogin speaks the client side of the login by hand
-func wdLogin(port int) (net.Conn, io.ReadWriter, string) {
-	conn, err := net.DialTimeout("tcp", fmt.Sprintf("127.0.0.1:%d", port), 3*time.Second)
-	if err != nil {
-		return nil, nil, "infra-dial"
-	}
-	now := time.Now().Unix()
-	if err := msg.WriteMsg(conn, &msg.Login{
-		Version: version.Full(), Timestamp: now, PrivilegeKey: util.GetAuthKey(waitToken, now),
-	}); err != nil {
-		conn.Close()
-		return nil, nil, "infra-login-write"
-	}
-	_ = conn.SetReadDeadline(time.Now().Add(5 * time.Second))
-	m, err := msg.ReadMsg(conn)
-	if err != nil {
-		conn.Close()
-		return nil, nil, "infra-login-read"
-	}
-	if lr, ok := m.(*msg.LoginResp); !ok || lr.Error != "" {
-		conn.Close()
-		return nil, nil, "login-refused"
-	}
-	_ = conn.SetReadDeadline(time.Time{})
-	rw, err := netpkg.NewCryptoReadWriter(conn, []byte(waitToken))
-	if err != nil {
-		conn.Close()
-		return nil, nil, "infra-crypto"
-	}
-	return conn, rw, ""
-}
-
 type wdPx struct {
 	name    string
 	port    int
 	holdEnd time.Time
 }
 
-func runWd(id string, port, T int, scope bool, items []wdItem) string {
-	conn, rw, e := wdLogin(port)
+func runWd(id string, srv *wdServer, T int, scope, mux bool, items []wdItem) string {
+	port := srv.port
+	sess, e := wdLoginX(port, mux, id)
 	if e != "" {
 		return e
 	}
-	defer conn.Close()
+	defer sess.closeAll()
+	rw := sess.rw
 	t0 := time.Now()
 	var mu sync.Mutex
 	pok, perr := 0, 0
@@ -438,12 +427,21 @@ func runWd(id string, port, T int, scope bool, items []wdItem) string {
 				} else {
 					resp[p.ProxyName] = "err"
 				}
+			case *msg.ReqWorkConn:
+				go sess.answerReqWorkConn()
 			}
 			mu.Unlock()
 		}
 	}()
 	var sent []string
 	var pxs []wdPx
+	var users []net.Conn
+	live, bridged := false, 0
+	defer func() {
+		for _, u := range users {
+			u.Close()
+		}
+	}()
 	lastValid := time.Duration(0)
 	isClosed := func() bool {
 		select {
@@ -470,9 +468,36 @@ loop:
 			mu.Lock()
 			closedAt = time.Since(t0)
 			mu.Unlock()
-			conn.Close()
+			sess.fallSilent()
+			sess.cut()
 			<-closed
 			break loop
+		case 'u':
+			// users of the tunnel: each connection is bridged to a work connection of this peer and stays
+			live = true
+			if len(pxs) == 0 {
+				break
+			}
+			px := pxs[len(pxs)-1]
+			// the registration must have been answered (at most 1 s: event driven)
+			for w := 0; w < 100; w++ {
+				mu.Lock()
+				r := resp[px.name]
+				mu.Unlock()
+				if r != "" || isClosed() {
+					break
+				}
+				time.Sleep(10 * time.Millisecond)
+			}
+			for j := 0; j < it.hold; j++ {
+				c, ok := wdUserConn(px.port, fmt.Sprintf("%s-%d", id, len(users)))
+				if c != nil {
+					users = append(users, c)
+				}
+				if ok {
+					bridged++
+				}
+			}
 		case 'n':
 			px := wdPx{name: fmt.Sprintf("%sn%d", id, len(pxs)), port: wdPort()}
 			if it.hold > 0 {
@@ -486,10 +511,15 @@ loop:
 			}
 			pxs = append(pxs, px)
 			sent = append(sent, fmt.Sprintf("n:%d", (time.Since(t0) + time.Duration(it.hold)*time.Millisecond).Microseconds()))
-		case 'c', 'e', 'h':
+		case 'c', 'e', 'h', 'C':
 			// other traffic of a peer that is otherwise silent: none of it is a heartbeat
 			var m msg.Message
 			switch it.kind {
+			case 'C':
+				if len(pxs) == 0 {
+					continue
+				}
+				m = &msg.CloseProxy{ProxyName: pxs[len(pxs)-1].name}
 			case 'c':
 				m = &msg.CloseProxy{ProxyName: fmt.Sprintf("%s-nobody-%d", id, len(sent))}
 			case 'e':
@@ -524,6 +554,8 @@ loop:
 			sent = append(sent, fmt.Sprintf("%c:%d", it.kind, at.Microseconds()))
 		}
 	}
+	// from here on the peer is silent: it answers nothing and keeps every socket it has
+	sess.fallSilent()
 	horizon := lastValid + time.Duration(T)*time.Second + 2500*time.Millisecond
 	select {
 	case <-closed:
@@ -547,6 +579,7 @@ loop:
 	// the session is over (or should be): once every held registration has returned and the server had
 	// 600 ms to finish its teardown, a fresh session must be able to register the same names and ports
 	px := "-"
+	liveRes := ""
 	if len(pxs) > 0 && !open {
 		settle := time.Now()
 		for _, p := range pxs {
@@ -555,8 +588,35 @@ loop:
 			}
 		}
 		time.Sleep(time.Until(settle.Add(600 * time.Millisecond)))
+		if live {
+			// the server's own tables (the walk of worker() must not have waited for the user connections), and
+			// what became of the user connections
+			byRun, names := srv.svc.VerifSessDump()
+			inCtl, inPx := 0, 0
+			if _, ok := byRun[sess.runID]; ok {
+				inCtl = 1
+			}
+			for _, p := range pxs {
+				if names[p.name] == id {
+					inPx++
+				}
+			}
+			stillOpen := 0
+			for _, u := range users {
+				if wdStillOpen(u) {
+					stillOpen++
+				}
+			}
+			liveRes = fmt.Sprintf(" lv=%d/%d/%d tb=%d/%d", len(users), bridged, stillOpen, inCtl, inPx)
+		}
 		var out []string
-		conn2, rw2, e2 := wdLogin(port)
+		var conn2 net.Conn
+		var rw2 io.ReadWriter
+		sess2, e2 := wdLoginX(port, mux, id+"-re")
+		if sess2 != nil {
+			conn2, rw2 = sess2.conn, sess2.rw
+			defer sess2.closeAll()
+		}
 		for j, p := range pxs {
 			r1 := first[p.name]
 			if r1 == "" {
@@ -584,10 +644,9 @@ loop:
 			}
 			out = append(out, fmt.Sprintf("%d:%s:%s", j, r1, rr))
 		}
-		if conn2 != nil {
-			conn2.Close()
-		}
 		px = strings.Join(out, ",")
+	} else if live {
+		liveRes = fmt.Sprintf(" lv=%d/%d/- tb=-/-", len(users), bridged)
 	}
 	kind := "closed"
 	if open {
@@ -595,7 +654,7 @@ loop:
 	} else if cut {
 		kind = "cut"
 	}
-	return fmt.Sprintf("%s %d sent=%s pok=%d perr=%d px=%s", kind, cAt.Microseconds(), ss, np, ne, px)
+	return fmt.Sprintf("%s %d sent=%s pok=%d perr=%d px=%s%s", kind, cAt.Microseconds(), ss, np, ne, px, liveRes)
 }
 
 // ---- client-side watchdog and re-login: real frpc + scripted raw server
@@ -1008,7 +1067,8 @@ func (w *waitEngine) exec(tok []string) string {
 	case "wdstart":
 		id, T, scope := tok[1], atoi(tok[2]), tok[3] == "1"
 		items := parseWdScript(tok[4])
-		port := w.serverFor(T, scope)
+		mux := len(tok) > 5 && tok[5] == "mux"
+		srv := w.serverFor(T, scope, mux)
 		ch := make(chan string, 1)
 		w.mu.Lock()
 		w.jobs[id] = ch
@@ -1019,7 +1079,7 @@ func (w *waitEngine) exec(tok []string) string {
 					ch <- "PANIC:" + hx(fmt.Sprint(r))
 				}
 			}()
-			ch <- runWd(id, port, T, scope, items)
+			ch <- runWd(id, srv, T, scope, mux, items)
 		}()
 		return "started"
 	case "cwstart":
@@ -1038,7 +1098,27 @@ func (w *waitEngine) exec(tok []string) string {
 			ch <- runCw(I, T, set0, script)
 		}()
 		return "started"
-	case "wdwait", "cwwait":
+	case "hbcfg":
+		return hbCfgOp(tok)
+	case "hbstart":
+		if len(tok) < 7 {
+			return "badop"
+		}
+		id, format, wr, k := tok[1], tok[2], hbWritten{tok[3], tok[4], tok[5]}, atoi(tok[6])
+		ch := make(chan string, 1)
+		w.mu.Lock()
+		w.jobs[id] = ch
+		w.mu.Unlock()
+		go func() {
+			defer func() {
+				if r := recover(); r != nil {
+					ch <- "PANIC:" + hx(fmt.Sprint(r))
+				}
+			}()
+			ch <- runHb(format, wr, k)
+		}()
+		return "started"
+	case "wdwait", "cwwait", "hbwait":
 		w.mu.Lock()
 		ch := w.jobs[tok[1]]
 		delete(w.jobs, tok[1])
@@ -1352,8 +1432,154 @@ func genWait(rng *rand.Rand, n int, emit func(string)) {
 		emit(fmt.Sprintf("cwstart %s 1 %d %s %s", id, T, genSet(), strings.Join(items, ",")))
 		waits = append(waits, "cwwait "+id)
 	}
+	// LIVE TRAFFIC at the moment of death: the session has user connections bridged to work connections when its peer
+	// falls silent (and keeps every socket open) or the control connection is cut; tcpMux off and on; one or two
+	// proxies, users on the one registered last (the other one is idle); the tear-down must release names, ports and
+	// table entries within the usual bound without waiting for those connections
+	nlv := 4 + n/2500
+	for i := 0; i < nlv; i++ {
+		T := 1 + rng.Intn(2)
+		scope := rng.Intn(2) == 0
+		mux := i%4 >= 2
+		cut := i%2 == 1
+		var items []string
+		ping := func() { items = append(items, fmt.Sprintf("v%d", 60+rng.Intn(T*1000*4/10))) }
+		for j, k := 0, rng.Intn(3); j < k; j++ {
+			ping()
+		}
+		nreg := 1 + rng.Intn(2)
+		for r := 0; r < nreg; r++ {
+			items = append(items, fmt.Sprintf("n%d/%c/0", 20+rng.Intn(120), "pcra"[rng.Intn(4)]))
+			if r == nreg-1 || rng.Intn(2) == 0 {
+				items = append(items, fmt.Sprintf("u%d/%d", 40+rng.Intn(200), 1+rng.Intn(3)))
+			}
+			if rng.Intn(2) == 0 {
+				ping()
+			}
+		}
+		if rng.Intn(3) == 0 {
+			// the proxy is closed by its owner while its users are connected; the peer goes on with valid heartbeats:
+			// the read loop must not be held up by that (the session lives until the heartbeats stop)
+			items = append(items, fmt.Sprintf("C%d", 30+rng.Intn(150)))
+			ping()
+			ping()
+		}
+		for j, k := 0, rng.Intn(3); j < k; j++ {
+			ping()
+		}
+		if cut {
+			items = append(items, fmt.Sprintf("x%d", 60+rng.Intn(400)))
+		}
+		id := fmt.Sprintf("l%d", i)
+		line := fmt.Sprintf("wdstart %s %d %d %s", id, T, map[bool]int{false: 0, true: 1}[scope], strings.Join(items, ","))
+		if mux {
+			line += " mux"
+		}
+		emit(line)
+		waits = append(waits, "wdwait "+id)
+	}
+	// the heartbeat settings AS WRITTEN in a configuration text, through the real loader: real frpc against a server
+	// that answers K pings and falls silent.  The classes rotate: timeout = interval | between one and two intervals |
+	// two intervals and more | switched off by a negative value | nothing written (tcpMux on / not written: no
+	// application heartbeat; tcpMux off: 30 / 90) | written values with tcpMux on | timeout below the interval (refused)
+	hbFormats := []string{"toml", "json", "yaml", "ini"}
+	hbMuxes := []string{"off", "on", "unset"}
+	nhb := 7 + n/2500
+	for i := 0; i < nhb; i++ {
+		mux, I, T, K := "off", "-", "-", rng.Intn(2)
+		pick2 := func(l [][2]int) {
+			e := l[rng.Intn(len(l))]
+			I, T = strconv.Itoa(e[0]), strconv.Itoa(e[1])
+		}
+		switch i % 7 {
+		case 0:
+			pick2([][2]int{{2, 2}, {3, 3}, {1, 1}})
+			mux = hbMuxes[rng.Intn(2)]
+		case 1:
+			pick2([][2]int{{3, 4}, {3, 5}, {2, 3}, {3, 4}})
+		case 2:
+			pick2([][2]int{{1, 2}, {1, 3}, {2, 4}})
+			K = rng.Intn(3)
+		case 3:
+			e := [][2]int{{2, -1}, {-1, 2}, {-1, -1}, {1, -5}}[rng.Intn(4)]
+			I, T = strconv.Itoa(e[0]), strconv.Itoa(e[1])
+			mux = hbMuxes[rng.Intn(3)]
+		case 4:
+			mux = hbMuxes[1+rng.Intn(2)]
+			if rng.Intn(3) == 0 { // tcpMux off, only one of the two written
+				mux = "off"
+				if rng.Intn(2) == 0 {
+					I = "2"
+				} else {
+					T = "2"
+				}
+			}
+		case 5:
+			mux = "off"
+			if rng.Intn(2) == 0 {
+				I, T = "0", "0" // written zeros: the defaults apply
+			}
+		default:
+			if rng.Intn(2) == 0 {
+				pick2([][2]int{{2, 2}, {3, 4}, {2, 3}, {1, 2}})
+				mux = hbMuxes[1+rng.Intn(2)]
+			} else {
+				pick2([][2]int{{3, 2}, {2, 1}, {3, 1}})
+				mux = hbMuxes[rng.Intn(3)]
+			}
+		}
+		id := fmt.Sprintf("h%d", i)
+		emit(fmt.Sprintf("hbstart %s %s %s %s %s %d", id, hbFormats[rng.Intn(4)], mux, I, T, K))
+		waits = append(waits, "hbwait "+id)
+	}
 	budget := n - len(waits)*2 - 1
 	sleeps := 0
+	// the same lattice without the clock: what the loader + Complete + the validation make of a written interval /
+	// timeout (relations: below, equal, between one and two times, two times and above; negative; not written), for
+	// frpc and frps, every format, every tcpMux setting
+	hbVals := []int{1, 2, 3, 5, 7, 10, 12, 13, 20, 30, 40, 45, 59, 60, 61, 89, 90, 91, 100, 120, 200, 3600}
+	for j, k := 0, 40+n/60; j < k && budget > 0; j++ {
+		fm, mx := hbFormats[rng.Intn(4)], hbMuxes[rng.Intn(3)]
+		wr := func(v int) string {
+			switch r := rng.Intn(10); {
+			case r == 0:
+				return "-"
+			case r == 1:
+				return strconv.Itoa(-1 - rng.Intn(3))
+			case r == 2:
+				return "0" // a written zero is "not written": the default applies
+			}
+			return strconv.Itoa(v)
+		}
+		if rng.Intn(4) == 0 {
+			emit(fmt.Sprintf("hbcfg s %s %s %s", fm, mx, wr(hbVals[rng.Intn(len(hbVals))])))
+		} else {
+			I := hbVals[rng.Intn(len(hbVals))]
+			var T int
+			switch rng.Intn(6) {
+			case 0:
+				T = I - 1 - rng.Intn(I)/2
+				if T < 1 {
+					T = 1
+				}
+			case 1:
+				T = I
+			case 2:
+				T = I + 1 + rng.Intn(I)
+				if T >= 2*I {
+					T = 2*I - 1
+				}
+			case 3:
+				T = 2 * I
+			case 4:
+				T = 2*I + 1 + rng.Intn(2*I)
+			default:
+				T = hbVals[rng.Intn(len(hbVals))]
+			}
+			emit(fmt.Sprintf("hbcfg c %s %s %s %s", fm, mx, wr(I), wr(T)))
+		}
+		budget--
+	}
 	for budget > 0 {
 		r := rng.Intn(100)
 		switch {
